@@ -380,7 +380,8 @@ func (h H) resetTimerOnlyOnGrant(rule string) {
 		if evIndex(t, isCall("(*Raft).onRequest")) < 0 {
 			continue
 		}
-		if core.Entails(t.Facts, core.Rel{A: "invoke:rpcType(rpc.req)", Op: "!=", B: vote}, t.Unsigned) {
+		// every path that a request other than a vote request can take (the path's facts do not make it a vote request)
+		if !core.Entails(t.Facts, core.Rel{A: "invoke:rpcType(rpc.req)", Op: "==", B: vote}, t.Unsigned) {
 			m++
 			h.C.Check(rule+" leader-contact-resets", "(*Raft).replyRPC path["+t.Describe()+"]", t.Ret[0] == "true", t.ExitPos, "a handled request from the leader may leave the election timer running (result "+t.Ret[0]+")")
 		}
